@@ -42,8 +42,21 @@ fn main() {
 
     let unit: Value = serde_json::from_str(&read(&format!("{}/unit.json", unit_dir)))
         .unwrap_or_else(|e| die(&format!("unit.json: {}", e)));
-    let vspec_path = format!("{}/contracts.vspec", unit_dir);
-    let contracts = vspec::parse(&read(&vspec_path), &vspec_path);
+    let mut contracts = vspec::Contracts::default();
+    let cfiles: Vec<String> = match unit["contracts"].as_array() {
+        Some(a) => a.iter().map(|v| v.as_str().unwrap().to_string()).collect(),
+        None => vec!["contracts.vspec".to_string()],
+    };
+    for cf in cfiles {
+        let vspec_path = format!("{}/{}", unit_dir, cf);
+        let part = vspec::parse(&read(&vspec_path), &vspec_path);
+        for (k, v) in part.items {
+            if contracts.items.contains_key(&k) {
+                die(&format!("duplicate @item {} across contract files", k));
+            }
+            contracts.items.insert(k, v);
+        }
+    }
 
     let mut pr = Printer::new();
     let mut items_map: Vec<Value> = Vec::new();
